@@ -10,6 +10,7 @@ func init() { runners["C04"] = runC04 }
 // segment-structured templates against the concatenation of their text segments and values;
 // verbatim bodies rendered under two contexts.
 func runC04(cases string, res *Result) {
+	c04LongText(res)
 	readCases(cases, func(c Case) {
 		src := c.hexs("src")
 		stream := c.str("stream")
